@@ -492,6 +492,11 @@ func main() {
 		r.Rule("every stream is served by the real yubiagent.ServeAgent (fresh remote-mode server over a fresh scripted underlying agent) on a connected unix-socket pair; a third of the streams is delivered in 1..5-byte pieces. Exhaustive table: every message code 0..255 x body {none, 00, ff}, the zero-length frame, length prefixes cut to 0..3 bytes, declared lengths {16 MiB, 16 MiB+1, 2^31, 2^32-1} with 0..8 body bytes; then seeded streams of 1..12 pieces mixing grammar-derived well-formed frames (list, v1 list, remove-all, lock/unlock, sign, add of every key type with constraints and certificates, remove, both add-hardware-cert encodings, list/read/attest slot, wait, relayed codes), mutated frames, empty/oversized/truncated frames. Oracle: responses parse as frames, one per complete well-formed request, in order and of the right kind (relayed ones byte-identical to the underlying agent's reply); service may end with an error only at a piece that is not a complete well-formed frame; nil only if every piece was answered and the stream ended between frames (a stream cut inside a frame ends service with an error); no panic; no allocation above 8 MiB for a declared oversized frame. distinct_nontrivial = distinct (stream bytes, delivery mode) pairs that were judged to the end")
 		r.Assume("well-formed grammar is the harness's conservative one; frames outside it may be answered or may end the connection with an error", "wait frames are released by a poker connection that keeps sending the awaited code")
 		gen.Pool()
+		// stalls of more than a second each: beside everything else
+		var iwg sync.WaitGroup
+		iwg.Add(1)
+		go func() { defer iwg.Done(); idleDeadline(r) }()
+		defer iwg.Wait()
 		now := uint64(time.Now().Unix())
 		type job struct {
 			c      *ev.Case
